@@ -66,6 +66,7 @@ type VCOpts struct {
 	AfterCall func(fr *Frame, ins ssa.Instruction, c *ssa.CallCommon, callee *ssa.Function, args []Val, res Val)
 	OnMakeInterface func(fr *Frame, x *ssa.MakeInterface, iv Val)
 	CheckTags map[string]bool // clause groups whose obligations this run generates (nil: the untagged, structural group only)
+	InlineAcrossPkgs bool
 	ProtectParams bool
 	NoContents  bool // slice/string contents are not modelled (families are havoced instead): for properties about scalar state
 	GhostInit map[string]string // ghost scalar state vars with sort -> initial term handled by property driver
@@ -948,12 +949,21 @@ type localCell struct {
 
 // preserveLocals: cells of non-escaping local allocations keep their contents across a havoc of their families.
 func (fr *Frame) snapshotLocals(st *State, skip func(a *ssa.Alloc) bool) func(st2 *State) {
+	return fr.snapshotLocalsFor(st, skip, nil)
+}
+
+// snapshotLocalsFor: only the leaves whose family the write set ms can touch (nil or All: every leaf)
+func (fr *Frame) snapshotLocalsFor(st *State, skip func(a *ssa.Alloc) bool, ms *ModSet) func(st2 *State) {
+	touched := func(fam string) bool { return ms == nil || ms.All || ms.Arrs[fam] }
 	type snap struct {
 		fam, addr, old string
 	}
 	var snaps []snap
 	for _, po := range fr.root().protected {
 		for _, lf := range layoutOf(po.typ).leaves {
+			if !touched(lf.Arr) {
+				continue
+			}
 			famLeafSort[lf.Arr] = lf.Sort
 			a := sAdd(po.addr, sInt(int64(lf.Off)))
 			snaps = append(snaps, snap{lf.Arr, a, fmt.Sprintf("(select %s %s)", fr.q.get(st, lf.Arr), a)})
@@ -966,6 +976,9 @@ func (fr *Frame) snapshotLocals(st *State, skip func(a *ssa.Alloc) bool) func(st
 			}
 			elem := lc.ins.Type().(*types.Pointer).Elem()
 			for _, lf := range layoutOf(elem).leaves {
+				if !touched(lf.Arr) {
+					continue
+				}
 				famLeafSort[lf.Arr] = lf.Sort
 				a := sAdd(lc.addr, sInt(int64(lf.Off)))
 				snaps = append(snaps, snap{lf.Arr, a, fmt.Sprintf("(select %s %s)", fr.q.get(st, lf.Arr), a)})
